@@ -122,3 +122,55 @@ def search_hang(per_input_s=1.0):
 
 replay_parse_generic.timeout_s = 120
 replay_parse_generic.timeout_confirms = True
+
+
+def replay_work_bound(inputs, obl):
+    """count the calls of the parser-level readers for malformed deeply nested inputs: must stay linear in the length"""
+    import sys
+    from klongpy import KlongInterpreter
+    names = {'_expr', '_factor', '_read_fn_args', '_apply_adverbs', 'prog', 'read_cond', 'read_expr_array'}
+    worst = None
+    for d in (4, 8, 12, 14):
+        for text in ('(' * d + '1', '(' * d + '1]' + ')' * d, '{' * d + 'x', ':[' * d + '1;2', 'f(' * d + '1' + ')' * (d - 1), '[' * d + '1'):
+            k = KlongInterpreter()
+            cnt = [0]
+
+            def prof(frame, event, arg):
+                if event == 'call' and frame.f_code.co_name in names:
+                    cnt[0] += 1
+                    if cnt[0] > 40 * (len(text) + 2):
+                        raise _Alarm()
+            sys.setprofile(prof)
+            try:
+                k.prog(text)
+            except _Alarm:
+                sys.setprofile(None)
+                return dict(confirmed=True, detail=f"parsing {text!r} (length {len(text)}) made more than {40 * (len(text) + 2)} parser-level calls: work is not linear in the length")
+            except Exception:
+                pass
+            finally:
+                sys.setprofile(None)
+            if worst is None or cnt[0] / (len(text) + 2) > worst[0]:
+                worst = (cnt[0] / (len(text) + 2), text, cnt[0])
+    return dict(confirmed=False, detail=f"parser-level calls stay linear: at most {worst[0]:.1f} per character ({worst[2]} calls for {worst[1]!r})")
+
+
+def replay_parse_effects(inputs, obl):
+    """parsing must not bind, rebind or depend on variables: snapshot of the context before/after prog() on texts that put
+    expressions where the parser acts on an argument at parse time (.comment, .module)"""
+    from klongpy import KlongInterpreter
+    texts = ['.comment(endnote)\nthese lines\nendnote\n1+1', '.comment(marker::"fin")\nskipped\nfin\n2', '.comment("end")\nxx\nend\n3',
+             'a::1;b::a+1', 'f::{x+1};f(2)', '.comment(f(1))\nxx\n1\n']
+    for t in texts:
+        k = KlongInterpreter()
+        k('f::{x}')
+        before = {str(kk): repr(vv) for kk, vv in k._context}
+        try:
+            k.prog(t)
+        except Exception:
+            pass
+        after = {str(kk): repr(vv) for kk, vv in k._context}
+        if before != after:
+            diff = sorted(set(after.items()) ^ set(before.items()))[:3]
+            return dict(confirmed=True, detail=f"parsing {t!r} (no evaluation) changed the variables: {diff}")
+    return dict(confirmed=False, detail='parsing left the variable state untouched on the probe texts')
